@@ -171,6 +171,52 @@ def _and(conds):
 _LISTCOMP_TO_LOOP = False      # tried: three rule families (C02.winners, C13.table, C18.icm) read the closed comprehension form
 
 
+class _CanonGuards(ast.NodeTransformer):
+    """in a procedure (no value is ever returned), a guard clause in tail position is read as the if / else it abbreviates:
+       if c: return            ->  if not c: <rest>
+       <rest>
+       if c: S; return         ->  if c: S  else: <rest>
+       <rest>
+    (tail position only: inside a loop a bare return leaves more than the block it stands in)"""
+
+    @staticmethod
+    def _neg(test):
+        if isinstance(test, ast.UnaryOp) and isinstance(test.op, ast.Not):
+            return test.operand
+        if isinstance(test, ast.Compare) and len(test.ops) == 1:
+            flip = {ast.In: ast.NotIn, ast.NotIn: ast.In, ast.Is: ast.IsNot, ast.IsNot: ast.Is, ast.Eq: ast.NotEq, ast.NotEq: ast.Eq}
+            t = flip.get(type(test.ops[0]))
+            if t is not None:
+                return ast.copy_location(ast.Compare(left=test.left, ops=[t()], comparators=test.comparators), test)
+        return ast.copy_location(ast.UnaryOp(op=ast.Not(), operand=test), test)
+
+    def _fix(self, stmts):
+        for i, st in enumerate(stmts):
+            if isinstance(st, ast.If) and not st.orelse and st.body and isinstance(st.body[-1], ast.Return) and st.body[-1].value is None \
+                    and i + 1 < len(stmts):
+                rest = self._fix(stmts[i + 1:])
+                if len(st.body) == 1:
+                    new = ast.If(test=self._neg(st.test), body=rest, orelse=[])
+                else:
+                    new = ast.If(test=st.test, body=self._fix(st.body[:-1]), orelse=rest)
+                return stmts[:i] + [ast.copy_location(new, st)]
+        if stmts and isinstance(stmts[-1], ast.If):
+            last = stmts[-1]
+            last.body = self._fix(last.body)
+            if last.orelse:
+                last.orelse = self._fix(last.orelse)
+        return stmts
+
+    def visit_FunctionDef(self, node):
+        self.generic_visit(node)
+        own = [n for n in walk_no_nested(node) if isinstance(n, ast.Return)]
+        if own and all(r.value is None for r in own) and not any(isinstance(n, (ast.Yield, ast.YieldFrom)) for n in walk_no_nested(node)):
+            node.body = self._fix(node.body)
+            if node.body and isinstance(node.body[-1], ast.Return) and len(node.body) > 1:
+                node.body = node.body[:-1]
+        return node
+
+
 class _CanonLoops(ast.NodeTransformer):
     """the functional spellings of four loop idioms are read as the loops the code base writes them as:
        if not any(C for T in IT): S          ->  for T in IT: (if C: break)  else: S
@@ -467,7 +513,7 @@ class Program:
             tree = ast.parse(src, filename=path)
             from .inline import inline_unknown_helpers
             tree, self.inlined_helpers[name] = inline_unknown_helpers(name, tree)
-            tree = ast.fix_missing_locations(_CanonRet().visit(_CanonAug().visit(_CanonAnn().visit(tree))))
+            tree = ast.fix_missing_locations(_CanonGuards().visit(_CanonRet().visit(_CanonAug().visit(_CanonAnn().visit(tree)))))
             tree = ast.fix_missing_locations(_CanonAug().visit(_CanonLoops().visit(_CanonInline().visit(_CanonLoops(only_sums=True).visit(_CanonTernary().visit(tree))))))
         except (OSError, SyntaxError) as e:
             raise AnalysisError(f'cannot parse {path}: {e}') from e
